@@ -145,6 +145,19 @@ def run(tier, seed):
                     for p in ref)
                 if not same:
                     ck.violation({"clause": "lookup", "lmax": lmax, "N": Ntr, "l": l}, "eccentricity lookup(max l=%d, N=%d)[%d] is not the l=%d N=%d table" % (lmax, Ntr, l, l, Ntr), {})
+    # every multi-degree lookup helper, evaluated as plain Python (NUMBA_DISABLE_JIT) on exact arguments, returns the per-degree tables
+    import os
+    pr = core.run_py(["-m", "harness.lookup_nojit"], timeout=900, env={"NUMBA_DISABLE_JIT": "1", "NUMBA_CACHE_DIR": os.environ.get("NUMBA_CACHE_DIR", "")})
+    line = [x for x in pr.stdout.splitlines() if x.startswith("RESULT ")]
+    if pr.returncode != 0 or not line:
+        raise MachineryError("lookup_nojit failed: %s" % (pr.stderr[-800:]))
+    lk = json.loads(line[0][7:])
+    ck.notes["lookup_helpers_checked_without_jit"] = lk["helpers"]
+    for b in lk["bad"]:
+        if b["kind"] == "eccentricity":
+            ck.case(("lookup-nojit", json.dumps(b, sort_keys=True)), True)
+            ck.violation({"clause": "lookup", "lmax": b.get("lmax"), "N": b.get("N"), "l": b.get("l")}, "%s lookup helper (max l=%s%s): %s" % (
+                b["kind"], b.get("lmax"), (", N=%s" % b["N"]) if "N" in b else "", b["what"]), b)
     ck.cov["traces_validated_against_impl"] = ntab
     ck.notes["tables_compared"] = ntab
     ck.notes["worst_coefficient_deviation"] = worst
